@@ -32,7 +32,11 @@ def run(ctx):
                 mu = rng.choice([0.0, 0.5, 1.0, 2.0, rng.uniform(0, 5)])
                 r = rng.random()
                 muhat = mu if r < 0.15 else (rng.uniform(-2, 0) if r < 0.3 else (0.0 if r < 0.4 else rng.uniform(0, 6)))
-                if r > 0.9: muhat = math.nextafter(mu, rng.choice([-math.inf, math.inf]))
+                if r > 0.9:
+                    muhat = math.nextafter(mu, rng.choice([-math.inf, math.inf]))
+                    # the XLA/Eigen CPU runtime of jax and tensorflow flushes denormals to zero (runtime floating-point mode, see the
+                    # C04 findings): the float neighbours of 0 are not representable inputs there — use the smallest normal numbers
+                    if bk in ('jax', 'tensorflow') and 0 < abs(muhat) < 2.3e-308: muhat = math.copysign(2.3e-308, muhat)
                 free = {'pars': [muhat], 'val': rng.uniform(50, 60)}
                 dv = rng.choice([0.0, rng.uniform(0, 10), -rng.uniform(0, 1e-6), rng.uniform(0, 1e-9)])
                 fm = {'pars': [mu], 'val': free['val'] + dv}
